@@ -1502,7 +1502,7 @@ func ruleAppendClobber(prop string) ruleFn {
 	return func(w *World, r *Report) {
 		r.Rule("APPEND-CLOBBER", "no append writes into the backing array of a slice whose tail is read afterwards: `append(b[:h], x...)` stores x at b[h...] in place whenever the capacity allows, so a later `b[l:]` of the same base (same SSA value, or loaded from the same field with no store in between) reads what the append just overwrote.  In the in-memory cron's timeline, which all locations share, that drops another location's pending job and fires the inserted one twice (expected matches: none; positive and negative examples in rulint/fixtures/patterns are matched on every run)", 2)
 		match := func(fn *ssa.Function) int { return len(findAppendClobber(fn)) }
-		selfTest(r, "APPEND-CLOBBER", match, []string{"Timeline.AppendClobber"}, []string{"Timeline.AppendInsertOK", "Timeline.AppendInsertOK2", "Timeline.AppendDeleteOK"})
+		selfTest(r, "APPEND-CLOBBER", match, []string{"Timeline.AppendClobber", "Timeline.AppendClobber2"}, []string{"Timeline.AppendInsertOK", "Timeline.AppendInsertOK2", "Timeline.AppendDeleteOK"})
 		scanned, appends := 0, 0
 		for _, fn := range w.Funcs {
 			if isTestFile(w, fn) || fn.Synthetic != "" {
@@ -2248,4 +2248,231 @@ func ruleParentsValue(prop string) ruleFn {
 // boltErrExemptions: call sites (function + callee) where dropping a bolt error is accepted, with the reason.
 var boltErrExemptions = map[string]string{
 	"BOLT-ERR|fn=crolt.main call=(*github.com/boltdb/bolt.DB).Close": "deferred Close of the database when the command exits: nothing is acknowledged to anybody at that point",
+}
+
+// CRON-REARM (C15, C16): after the cron's timer fired, it is armed again as long as jobs are pending.
+func ruleCronRearm(prop string) ruleFn {
+	return func(w *World, r *Report) {
+		r.Rule("CRON-REARM", "in the in-memory cron's loop, after the timer fired and while the timeline is not empty (the `len(Timeline) == 0` edge deleted), every path back to the select passes resetTimer: the timer is armed for the head of the timeline whenever something is pending.  The timer is set for the job that was the head when it was armed; if that job is removed before it is due, the timer fires, finds a head that is not due yet, and — if it is only re-armed after running a job — never fires again: every pending job of every location waits until somebody schedules something", 1)
+		fn := w.Method("cron", "Cron", "start")
+		key := "fn=" + fname(fn)
+		var sel *ssa.Select
+		allInstrs(fn, func(in ssa.Instruction) {
+			if s, ok := in.(*ssa.Select); ok && sel == nil {
+				sel = s
+			}
+		})
+		if sel == nil {
+			r.exempt("CRON-REARM", key, w.Pos(fn.Pos()), "the cron loop has no select: shape not recognised, not decided")
+			return
+		}
+		isTimerField := func(v ssa.Value) bool {
+			n, f, _, ok := loadedField(v)
+			return ok && typeKey(n) == "cron.Cron" && f == "timer"
+		}
+		k := -1
+		for i, st := range sel.States {
+			if st.Dir == types.RecvOnly && dependsOn(st.Chan, isTimerField) {
+				k = i
+			}
+		}
+		if k < 0 {
+			r.exempt("CRON-REARM", key, w.PosOf(sel), "no case of the select receives from the cron's timer: shape not recognised, not decided")
+			return
+		}
+		// the block entered when the select's index equals k
+		var entry *ssa.BasicBlock
+		for _, b := range fn.Blocks {
+			if len(b.Instrs) == 0 {
+				continue
+			}
+			ifi, ok := b.Instrs[len(b.Instrs)-1].(*ssa.If)
+			if !ok {
+				continue
+			}
+			bo, ok := ifi.Cond.(*ssa.BinOp)
+			if !ok || bo.Op != token.EQL {
+				continue
+			}
+			ex, ok := bo.X.(*ssa.Extract)
+			if !ok || ex.Tuple != ssa.Value(sel) || ex.Index != 0 {
+				continue
+			}
+			if c, ok := bo.Y.(*ssa.Const); ok && c.Value != nil && c.Int64() == int64(k) {
+				entry = b.Succs[0]
+			}
+		}
+		if entry == nil || len(entry.Instrs) == 0 {
+			r.exempt("CRON-REARM", key, w.PosOf(sel), "the timer case of the select was not found: shape not recognised, not decided")
+			return
+		}
+		isTimeline := func(v ssa.Value) bool {
+			n, f, _, ok := loadedField(v)
+			return ok && typeKey(n) == "cron.Cron" && f == "Timeline"
+		}
+		del := map[bedge]bool{}
+		nlen := 0
+		for _, b := range fn.Blocks {
+			if x, ne, ok := lenEdge(b); ok && dependsOn(x, isTimeline) {
+				nlen++
+				del[bedge{b, 1 - ne}] = true // the empty edge
+			}
+		}
+		isReset := func(in ssa.Instruction) bool {
+			c := callOf(in)
+			if c == nil {
+				return false
+			}
+			f := c.StaticCallee()
+			return f != nil && (f == w.TryMethod("cron", "Cron", "resetTimer") || f == w.TryMethod("cron", "Cron", "resetTimerLocked"))
+		}
+		first := entry.Instrs[0]
+		target := func(in ssa.Instruction) bool { return in == ssa.Instruction(sel) }
+		// start from the instruction before `first`: use the If that leads here
+		var from ssa.Instruction
+		for _, p := range entry.Preds {
+			from = p.Instrs[len(p.Instrs)-1]
+		}
+		_ = first
+		ef := func(b *ssa.BasicBlock, si int) bool {
+			if del[bedge{b, si}] {
+				return false
+			}
+			// from the dispatching If only the edge into the timer case is followed
+			if from != nil && b == from.Block() {
+				return b.Succs[si] == entry
+			}
+			return true
+		}
+		if nlen == 0 {
+			r.exempt("CRON-REARM", key, w.PosOf(sel), "the timer case does not test the length of the timeline: shape not recognised, not decided")
+			return
+		}
+		if h, path := reach(fn, from, target, isReset, ef); h != nil {
+			r.violation("CRON-REARM", key, w.Pos(entry.Instrs[0].Pos()), "after the timer fired with jobs still pending, the loop can go back to waiting without arming the timer again (the head was not due: the job the timer was set for has been removed)", blockPathString(w, path)...)
+			return
+		}
+		r.ok("CRON-REARM", key, w.PosOf(sel), "re-armed on every path on which jobs are pending")
+	}
+}
+
+// DECODE-DEP (C04): what is executed is the action's code.
+func ruleDecodeDep(w *World, r *Report) {
+	r.Rule("DECODE-DEP", "the code an action executes is a function of the action's code: every success return of core.DecodeString (the decoding step of Action.GetStringCode) returns a value that data-depends on its `code` parameter, and GetStringCode returns the code or that decoding of it.  A return that depends only on the name of the encoding executes something else than the rule's action", 2)
+	fn := w.Func("core", "DecodeString")
+	var code *ssa.Parameter
+	for _, p := range fn.Params {
+		if p.Name() == "code" {
+			code = p
+		}
+	}
+	if code == nil && len(fn.Params) == 2 {
+		code = fn.Params[1]
+	}
+	key := "fn=" + fname(fn)
+	if code == nil {
+		r.exempt("DECODE-DEP", key, w.Pos(fn.Pos()), "no code parameter: shape not recognised, not decided")
+	} else {
+		bad := false
+		allInstrs(fn, func(in ssa.Instruction) {
+			ret, ok := in.(*ssa.Return)
+			if !ok || bad || !isSuccessReturnPS(in) || len(ret.Results) == 0 {
+				return
+			}
+			if !dependsOn(resolveSpill(ret.Results[0]), func(v ssa.Value) bool { return v == ssa.Value(code) }) {
+				r.violation("DECODE-DEP", key, w.PosOf(in), "this success return of DecodeString does not depend on the code it was given: an action with this encoding executes something else than its code")
+				bad = true
+			}
+		})
+		if !bad {
+			r.ok("DECODE-DEP", key, w.Pos(fn.Pos()), "every success return depends on the code")
+		}
+	}
+	gs := w.Method("core", "Action", "GetStringCode")
+	key = "fn=" + fname(gs)
+	isCodeSrc := func(v ssa.Value) bool {
+		n, f, _, ok := loadedField(v)
+		return ok && typeKey(n) == "core.Action" && f == "Code"
+	}
+	bad := false
+	allInstrs(gs, func(in ssa.Instruction) {
+		ret, ok := in.(*ssa.Return)
+		if !ok || bad || !isSuccessReturnPS(in) || len(ret.Results) == 0 {
+			return
+		}
+		if !dependsOn(resolveSpill(ret.Results[0]), isCodeSrc) {
+			r.violation("DECODE-DEP", key, w.PosOf(in), "this success return of GetStringCode does not depend on the action's Code")
+			bad = true
+		}
+	})
+	if !bad {
+		r.ok("DECODE-DEP", key, w.Pos(gs.Pos()), "every success return depends on the action's Code")
+	}
+}
+
+// TIMELINE-ORDER (C15, C16): the binary-searched timeline stays sorted.
+func ruleTimelineOrder(prop string) ruleFn {
+	return func(w *World, r *Report) {
+		r.Rule("TIMELINE-ORDER", "the in-memory cron finds insertion points in its timeline by binary search and always runs the head (premise, checked: a function of package cron calls sort.Search over the timeline); therefore no function moves a single element of the timeline to another index (a store into an element of the timeline whose value was loaded from an element of the timeline): removal shifts the tail down with copy / append.  A swap-remove puts a job due in an hour ahead of jobs due in seconds, which then miss their ticks", 1)
+		tl := w.TryNamed("cron", "Timeline")
+		if tl == nil {
+			r.exempt("TIMELINE-ORDER", "type=cron.Timeline", "", "no Timeline type: shape not recognised, not decided")
+			return
+		}
+		// premise
+		searched := false
+		for _, fn := range w.Funcs {
+			if w.RelPkg(fn) != "cron" || isTestFile(w, fn) {
+				continue
+			}
+			allInstrs(fn, func(in ssa.Instruction) {
+				if c := callOf(in); c != nil {
+					if f := c.StaticCallee(); f != nil && f.Pkg != nil && f.Pkg.Pkg.Path() == "sort" && f.Name() == "Search" {
+						searched = true
+					}
+				}
+			})
+		}
+		if !searched {
+			r.exempt("TIMELINE-ORDER", "type=cron.Timeline", w.Pos(tl.Obj().Pos()), "premise fails: the timeline is not binary-searched any more; not decided by this rule")
+			return
+		}
+		isTL := func(t types.Type) bool { return types.Identical(t, tl) }
+		n := 0
+		for _, fn := range w.Funcs {
+			if w.RelPkg(fn) != "cron" || isTestFile(w, fn) || fn.Synthetic != "" {
+				continue
+			}
+			if fn.Name() == "Swap" && fn.Signature.Recv() != nil && isTL(fn.Signature.Recv().Type()) {
+				continue // sort.Interface: used by sort.Sort, which establishes the order
+			}
+			allInstrs(fn, func(in ssa.Instruction) {
+				st, ok := in.(*ssa.Store)
+				if !ok {
+					return
+				}
+				ia, ok := st.Addr.(*ssa.IndexAddr)
+				if !ok || !isTL(ia.X.Type()) {
+					return
+				}
+				n++
+				key := "fn=" + fname(fn)
+				// value loaded from an element of a timeline?
+				moved := false
+				if ld, ok := st.Val.(*ssa.UnOp); ok && ld.Op == token.MUL {
+					if ia2, ok := ld.X.(*ssa.IndexAddr); ok && isTL(ia2.X.Type()) {
+						moved = true
+					}
+				}
+				if moved {
+					r.violation("TIMELINE-ORDER", key, w.PosOf(in), "an element of the timeline is moved to another index on its own: the timeline is no longer sorted by due time")
+				} else {
+					r.ok("TIMELINE-ORDER", key, w.PosOf(in), "stores a new job (or nil) into the timeline, does not move an element")
+				}
+			})
+		}
+		if n == 0 {
+			r.ok("TIMELINE-ORDER", "scope=package cron", "", "no element-wise store into the timeline")
+		}
+	}
 }
